@@ -1,6 +1,7 @@
 (* Properties_C16.v — C16: sliding-window statistics and ring buffers reflect exactly the last W items. *)
 From Coq Require Import ZArith List Bool Arith Reals Lia.
-From Romea Require Import Num NumR OnlineStatsModel OnlineStatsProofs.
+From Romea Require Import Num NumR OnlineStatsModel OnlineStatsProofs StatsSem SrcTieC16.
+From Romea.gen Require Import SrcStats.
 Import ListNotations.
 
 (* For every window size W >= 1 and every history of updates/resets (samples already truncated to the
@@ -54,6 +55,147 @@ Theorem C16_ring_kth_most_recent : forall (A : Type) cap (h : list (rop A)) k,
 Proof. exact @ring_kth. Qed.
 Print Assumptions C16_ring_kth_most_recent.
 
+(* ==== SYNTACTIC SOURCE TIE ====
+   gen/SrcStats.v is regenerated on every run by translate/tr_C16_stats.py from the clang AST of OnlineAverage.cpp,
+   OnlineVariance.cpp and RingOfEigenVector.hpp: one Gallina state transformer per member function, on a record of the
+   C++ data members, with the wrap-around of size_t / long long / int explicit (StatsSem.v).  The theorems below say that
+   those transformers ARE the transitions of OnlineStatsModel.v (member by member), and that therefore the statements of
+   the property hold of the code as written, for every history.  N is any numeric dictionary in which the literal 1
+   converts to one (the reals, binary64, ...). *)
+
+(* OnlineAverage, member by member: constructors (incl. multiplier_ = static_cast<int>(1 / averagePrecision)),
+   setWindowSize, reset, isAvailable, getAverage preserve / read the relation to the model state *)
+Theorem C16_source_tie_average_members : forall (T : Type) (N : NumOps T), nofZ N 1 = n_one N ->
+  (forall prec W, avg_rel N (src_avg_ctor2 N prec (Z.of_nat W)) (o_init W) /\
+                  avg_multiplier_ (src_avg_ctor2 N prec (Z.of_nat W)) = o_multiplier N prec) /\
+  (forall prec W, src_avg_setWindowSize (src_avg_ctor1 N prec) W = src_avg_ctor2 N prec W) /\
+  (forall c m, avg_rel N c m -> avg_rel N (src_avg_reset c) (o_reset m) /\ avg_multiplier_ (src_avg_reset c) = avg_multiplier_ c) /\
+  (forall c m, avg_rel N c m -> src_avg_isAvailable c = o_available m) /\
+  (forall c m, avg_rel N c m -> src_avg_getAverage c = o_average N (avg_multiplier_ c) m).
+Proof. exact avg_members_tie. Qed.
+Print Assumptions C16_source_tie_average_members.
+
+(* OnlineAverage::update(value) = the model's update with the truncated sample, as long as the size_t index and the
+   long long sums stay inside their types *)
+Theorem C16_source_tie_average_update : forall (T : Type) (N : NumOps T) c m (v : T), avg_rel N c m ->
+  let x := o_trunc N (avg_multiplier_ c) v in
+  (0 < o_W m)%nat -> (Z.of_nat (o_W m) < two64)%Z -> (o_index m < o_W m)%nat ->
+  in_s64 (o_sum m + x) -> in_s64 (o_sum (o_update m x)) ->
+  avg_rel N (src_avg_update N c v) (o_update m x) /\ avg_multiplier_ (src_avg_update N c v) = avg_multiplier_ c.
+Proof. exact @tie_avg_update. Qed.
+Print Assumptions C16_source_tie_average_update.
+
+(* OnlineVariance, member by member (constructor incl. squaredMultiplier_ computed in long long, reset, the inherited
+   isAvailable / getAverage, getVariance) *)
+Theorem C16_source_tie_variance_members : forall (T : Type) (N : NumOps T), nofZ N 1 = n_one N ->
+  (forall prec W, in_s32 (o_multiplier N prec) ->
+                  var_rel N (src_var_ctor2 N prec (Z.of_nat W)) (o_init W) /\
+                  var_multiplier_ (src_var_ctor2 N prec (Z.of_nat W)) = o_multiplier N prec) /\
+  (forall prec W, src_var_setWindowSize (src_var_ctor1 N prec) W = src_var_ctor2 N prec W) /\
+  (forall c m, var_rel N c m -> var_rel N (src_var_reset c) (o_reset m) /\ var_multiplier_ (src_var_reset c) = var_multiplier_ c) /\
+  (forall c m, var_rel N c m -> src_var_isAvailable c = o_available m) /\
+  (forall c m, var_rel N c m -> src_var_getAverage c = o_average N (var_multiplier_ c) m) /\
+  (forall c m, var_rel N c m -> src_var_getVariance c = o_variance N (var_multiplier_ c) m).
+Proof. exact var_members_tie. Qed.
+Print Assumptions C16_source_tie_variance_members.
+
+Theorem C16_source_tie_variance_update : forall (T : Type) (N : NumOps T) c m (v : T), var_rel N c m ->
+  let x := o_trunc N (var_multiplier_ c) v in
+  (0 < o_W m)%nat -> (Z.of_nat (o_W m) < two64)%Z -> (o_index m < o_W m)%nat -> length (o_sq m) = length (o_data m) ->
+  in_s64 (x * x) -> in_s64 (o_sum m + x) -> in_s64 (o_sumsq m + x * x) ->
+  in_s64 (o_sum (o_update m x)) -> in_s64 (o_sumsq (o_update m x)) ->
+  var_rel N (src_var_update N c v) (o_update m x) /\ var_multiplier_ (src_var_update N c v) = var_multiplier_ c.
+Proof. exact @tie_var_update. Qed.
+Print Assumptions C16_source_tie_variance_update.
+
+(* RingOfEigenVector, member by member, for every object (size_t arithmetic with both wraps of operator[]) *)
+Theorem C16_source_tie_ring_members : forall (A : Type),
+  (forall cap, ring_abs (A:=A) (src_ring_ctor (Z.of_nat cap)) = r_init cap) /\
+  (forall (c : @ring_state A) x, (0 <= ring_ringSize_ c)%Z ->
+     ring_abs (src_ring_append c x) = r_append (ring_abs c) x /\ ring_ringSize_ (src_ring_append c x) = ring_ringSize_ c) /\
+  (forall (c : @ring_state A) n, src_ring_get c (Z.of_nat n) = r_get (ring_abs c) n) /\
+  (forall (c : @ring_state A), ring_abs (src_ring_clear c) = r_clear (ring_abs c)) /\
+  (forall (c : @ring_state A), src_ring_size c = Z.of_nat (r_size (ring_abs c))).
+Proof. exact ring_members_tie. Qed.
+Print Assumptions C16_source_tie_ring_members.
+
+(* The property, about the OnlineAverage code as written: for every window 1..64, every precision and every history of
+   update/reset whose truncated samples are bounded by 1e8 (so that nothing overflows — proved along the way), the
+   stored window is the last min(n,W) truncated samples since the last reset, sumOfData_ is exactly their sum,
+   isAvailable() iff W samples since the last reset, and getAverage() is that sum divided by multiplier * count (NaN
+   before the first sample) *)
+Theorem C16_source_tie_average_history : forall (T : Type) (N : NumOps T), nofZ N 1 = n_one N ->
+  forall prec W (ops : list (oop T)), (0 < W)%nat -> (W <= 64)%nat ->
+  let mult := o_multiplier N prec in
+  ops_bounded N mult ops ->
+  let c := fold_left (src_avg_step N) ops (src_avg_ctor2 N prec (Z.of_nat W)) in
+  let xs := since_reset (map (trunc_op N mult) ops) [] in
+  ring_logical W (avg_data_ c) (Z.to_nat (avg_index_ c)) = lastn W xs /\
+  vec_size (avg_data_ c) = Z.of_nat (Nat.min W (length xs)) /\
+  avg_sumOfData_ c = zsum (lastn W xs) /\
+  (src_avg_isAvailable c = true <-> (W <= length xs)%nat) /\
+  src_avg_getAverage c =
+    match lastn W xs with
+    | [] => None
+    | _ => Some (ndiv N (nofZ N (zsum (lastn W xs))) (nmul N (nofZ N mult) (nofZ N (Z.of_nat (Nat.min W (length xs))))))
+    end.
+Proof. exact @avg_code_window. Qed.
+Print Assumptions C16_source_tie_average_history.
+
+(* the same for the OnlineVariance code; getAverage / getVariance are the model's outputs on the model state reached by
+   the same (truncated) history, and the stored samples are the model's *)
+Theorem C16_source_tie_variance_history : forall (T : Type) (N : NumOps T), nofZ N 1 = n_one N ->
+  forall prec W (ops : list (oop T)), (0 < W)%nat -> (W <= 64)%nat ->
+  let mult := o_multiplier N prec in
+  in_s32 mult -> ops_bounded N mult ops ->
+  let c := fold_left (src_var_step N) ops (src_var_ctor2 N prec (Z.of_nat W)) in
+  let s := fold_left i_step (map (trunc_op N mult) ops) (o_init W) in
+  let xs := since_reset (map (trunc_op N mult) ops) [] in
+  ring_logical W (var_data_ c) (Z.to_nat (var_index_ c)) = lastn W xs /\
+  ring_logical W (var_squaredData_ c) (Z.to_nat (var_index_ c)) = map (fun x => (x * x)%Z) (lastn W xs) /\
+  var_sumOfData_ c = zsum (lastn W xs) /\
+  var_sumOfSquaredData_ c = zsum (map (fun x => (x * x)%Z) (lastn W xs)) /\
+  (src_var_isAvailable c = true <-> (W <= length xs)%nat) /\
+  src_var_getAverage c = o_average N mult s /\ src_var_getVariance c = o_variance N mult s /\
+  var_data_ c = o_data s.
+Proof. exact @var_code_window. Qed.
+Print Assumptions C16_source_tie_variance_history.
+
+(* over the reals: the code's getAverage() is the mean of the last min(n,W) truncated samples ... *)
+Theorem C16_source_tie_average_is_mean : forall prec W (ops : list (oop R)), (0 < W)%nat -> (W <= 64)%nat ->
+  let mult := o_multiplier ROps prec in
+  (0 < mult)%Z -> ops_bounded ROps mult ops ->
+  let c := fold_left (src_avg_step ROps) ops (src_avg_ctor2 ROps prec (Z.of_nat W)) in
+  let L := lastn W (since_reset (map (trunc_op ROps mult) ops) []) in
+  L <> [] ->
+  src_avg_getAverage c = Some (rsum (map (fun z => IZR z / IZR mult) L) / INR (length L))%R.
+Proof. exact avg_code_real. Qed.
+Print Assumptions C16_source_tie_average_is_mean.
+
+(* ... and its getVariance() the unbiased sample variance of the last W truncated samples once the window is full *)
+Theorem C16_source_tie_variance_is_unbiased : forall prec W (ops : list (oop R)), (2 <= W)%nat -> (W <= 64)%nat ->
+  let mult := o_multiplier ROps prec in
+  (0 < mult)%Z -> in_s32 mult -> ops_bounded ROps mult ops ->
+  let c := fold_left (src_var_step ROps) ops (src_var_ctor2 ROps prec (Z.of_nat W)) in
+  let xs := since_reset (map (trunc_op ROps mult) ops) [] in
+  (W <= length xs)%nat ->
+  let ys := map (fun z => IZR z / IZR mult)%R (lastn W xs) in
+  let mean := (rsum ys / INR (length ys))%R in
+  src_var_getVariance c = Some (rsum (map (fun y => (y - mean) * (y - mean))%R ys) / (INR (length ys) - 1))%R.
+Proof. exact var_code_real. Qed.
+Print Assumptions C16_source_tie_variance_is_unbiased.
+
+(* the ring-buffer statement about the RingOfEigenVector code as written: every capacity, every history of
+   append / clear: size() = min(n, capacity) and operator[](k) is the k-th most recent item *)
+Theorem C16_source_tie_ring_history : forall (A : Type) cap (h : list (rop A)) k,
+  (0 < cap)%nat -> (2 * Z.of_nat cap <= two64)%Z ->
+  let c := fold_left src_ring_step h (src_ring_ctor (Z.of_nat cap)) in
+  let xs := since_clear h [] in
+  src_ring_size c = Z.of_nat (Nat.min cap (length xs)) /\
+  ((Z.of_nat k < src_ring_size c)%Z -> src_ring_get c (Z.of_nat k) = nth_error (rev xs) k).
+Proof. exact @ring_code_kth. Qed.
+Print Assumptions C16_source_tie_ring_history.
+
 (* ---- the defects that were repaired (models of the code before the fix:, kept as documentation) ---- *)
 (* reset() kept index_: W = 3, history 100, reset, 1, 2, 3, 10 -> window {1,3,10}, not {2,3,10} *)
 Theorem C16_reset_keeps_index_refuted :
@@ -88,4 +230,15 @@ Proof. vm_compute. repeat split; reflexivity. Qed.
 Example C16_ex_ring :
   let s := fold_left r_step [RAppend 1; RAppend 2; RAppend 3; RAppend 4]%Z (r_init 3) in
   map (r_get s) [0; 1; 2] = [Some 4; Some 3; Some 2]%Z.
+Proof. vm_compute. reflexivity. Qed.
+
+(* the generated code, run: W = 3, precision 1, history 100, reset, 1, 2, 3, 10 (the old reset() defect's witness) *)
+Example C16_ex_source_run :
+  let c := fold_left (src_avg_step ROps) [OUpdate 100; OReset; OUpdate 1; OUpdate 2; OUpdate 3; OUpdate 10]%R
+                     (src_avg_ctor2 ROps 1%R 3%Z) in
+  avg_index_ c = 1%Z /\ avg_windowSize_ c = 3%Z.
+Proof. cbn. split; reflexivity. Qed.
+Example C16_ex_source_ring :
+  let c := fold_left src_ring_step [RAppend 1; RAppend 2; RAppend 3; RAppend 4]%Z (src_ring_ctor 3%Z) in
+  map (fun k => src_ring_get c k) [0; 1; 2]%Z = [Some 4; Some 3; Some 2]%Z.
 Proof. vm_compute. reflexivity. Qed.
